@@ -861,6 +861,713 @@ def set_keyed_checks(ctx, fam, rec, out):
             return
 
 
+# ------------------------------------------------------------------------------------------
+# Generator lessons of seeded batch 4 (BUILD_GUIDE, round 6): a fixed quota of each input kind in EVERY run.
+# Every lesson family goes through `evaluate` / `judge` / `set_keyed_checks` / `laws` exactly like the random ones:
+# the Lean side decides from the wire dumps what is equal to what.
+# ------------------------------------------------------------------------------------------
+
+def warm(t):
+    """read every property / cached_property of a triangle (and its hash): caches are filled"""
+    import functools
+    for name in dir(type(t)):
+        if name.startswith("_") or name.startswith("plot"):
+            continue
+        if isinstance(getattr(type(t), name, None), (property, functools.cached_property)):
+            call(getattr, t, name)
+    call(hash, t)
+    call(len, t)
+
+
+def fresh_copy(t):
+    """new cell objects (new value dicts) with the same content"""
+    return Triangle([mk(type(c), c) for c in t.cells])
+
+
+def with_cell(cs, p, x):
+    return Triangle(cs[:p] + [x] + cs[p + 1:])
+
+
+def grid_cells(rng, meta, n_periods, n_evals, kind, vkind, res=1, y0=None, fields=("paid_loss", "reported_loss"),
+               n_samples=3):
+    rows = gen.layout_regular(rng, res=res, n_periods=n_periods, n_lags=n_evals, start_year=y0, shape="square")
+    return gen.cells_from_layout(rng, rows, meta, kind=kind, fields=list(fields), vkind=vkind, n_samples=n_samples)
+
+
+def bump(c, k=None, by=1):
+    """the cell with one field changed by `by` (last element for arrays)"""
+    k = k or list(c.values)[-1]
+    v = c.values[k]
+    if isinstance(v, np.ndarray):
+        nv = v.astype(np.float64) if by != int(by) else v.copy()
+        nv.reshape(-1)[-1] += by
+    else:
+        nv = v + by
+    return mk(type(c), c, values={**c.values, k: nv})
+
+
+def star(copies, others, rng=None, cross=0):
+    """full matrix over the copies; first copy (the base) against every other variant in both directions"""
+    pairs = [(a, b) for a in copies for b in copies]
+    base = copies[0]
+    pairs += [(base, v) for v in others] + [(v, base) for v in others]
+    if rng is not None and others:
+        for _ in range(cross):
+            a, b = rng.choice(others), rng.choice(others + copies[1:])
+            pairs += [(a, b), (b, a)]
+    return pairs
+
+
+def lesson_eval(ctx, fam, tag, pairs, mems=(), cell_pairs=(), p_union=0.25, p_twice=0.3, note=()):
+    req, rec = evaluate(ctx, fam, pairs, sets=True, mems=list(mems), cell_pairs=list(cell_pairs),
+                        p_union=p_union, p_twice=p_twice)
+    ctx.count(f"lesson/{tag}")
+    for n_ in note:
+        ctx.count(f"lesson/{tag}/{n_}")
+    record_cases(ctx, fam, rec, "lesson",
+                 sample={"stream": "lesson", "lesson": tag, "triangles": len(fam.objs), "pairs": len(rec["plist"]),
+                         "cells": max((len(t) for t in fam.tris), default=0)})
+    laws(ctx, fam, rec)
+    return fam, req, rec
+
+
+def lesson_size_arrays(ctx, rng, idx, n, kind=None):
+    """lesson 1 — sample arrays of 256 / 1000 / ... elements: equal twins in another dtype / sign of zero / memory
+    layout, and single edits at LATE positions of the array"""
+    kind = kind or rng.choice(["C", "U", "I"])
+    meta = gen.rand_metas(rng, 1)[0]
+
+    def arr():
+        a = np.array([rng.randrange(1, 4096) for _ in range(n)], dtype=np.float64)
+        a[rng.sample(range(n), max(2, n // 10))] = 0.0
+        a[n - 1] = 0.0
+        a[n - 2] = 7.0
+        return a
+
+    rows = gen.layout_regular(rng, res=12, n_periods=2, n_lags=2, shape="square")
+    cs = []
+    for ps, pe, evals in rows:
+        prev = ps - ONE
+        for ev in evals:
+            vals = {"paid_loss": arr(), "reported_loss": arr()}
+            cs.append(IncrementalCell(ps, pe, prev, ev, vals, meta) if kind == "I" else
+                      (CumulativeCell if kind == "U" else Cell)(ps, pe, ev, vals, meta))
+            prev = ev
+    t = Triangle(cs)
+    cs = list(t.cells)
+    fam = Family(f"lesson-size-array#{idx}")
+    base = fam.add(t, "base")
+    copies, others = [base], []
+
+    def remap(f, cells=None):
+        return Triangle([mk(type(c), c, values={k: f(v) for k, v in c.values.items()}) for c in (cells or cs)])
+
+    def negzero(v):
+        w = v.copy()
+        w[w == 0] = -0.0
+        return w
+
+    def strided(v):
+        big = np.zeros(2 * v.size, dtype=v.dtype)
+        w = big[::2]
+        w[...] = v
+        return w
+
+    copies.append(fam.add(remap(lambda v: v.astype(np.int64)), "copy:int64-twin"))
+    copies.append(fam.add(remap(negzero), "copy:-0.0-twin"))
+    copies.append(fam.add(remap(strided), "copy:strided-view"))
+    copies.append(fam.add(remap(lambda v: np.ascontiguousarray(v[::-1])[::-1]), "copy:negative-stride-view"))
+    copies.append(fam.add(Triangle([mk(type(c), c, values={"reported_loss": c.values["reported_loss"].astype(np.int64),
+                                                            "paid_loss": negzero(c.values["paid_loss"])}) for c in cs]),
+                          "copy:mixed-dtypes-other-key-order"))
+    p = len(cs) - 1
+    last = cs[p]
+    v = last.values["reported_loss"]
+
+    def edit(tag, nv, field="reported_loss", src=None):
+        x = mk(type(last), last, values={**(src or last).values, field: nv})
+        others.append(fam.add(with_cell(cs, p, x), f"edit@{p}:{tag}"))
+        ctx.count(f"lesson/size-array/edit:{tag}")
+        return x
+
+    def at(j, by, dtype=None):
+        w = v.astype(dtype) if dtype else v.copy()
+        w[j] += by
+        return w
+
+    edited = [edit("last-elem+1", at(n - 1, 1)), edit("last-elem+2^-20", at(n - 1, 2.0 ** -20)),
+              edit("elem[255]+1", at(min(255, n - 1), 1)), edit("elem[0]+1", at(0, 1)),
+              edit("int64-twin-last+1", at(n - 1, 1, np.int64)),
+              edit("drop-last", v[:-1].copy()), edit("append", np.concatenate([v, v[-1:]])),
+              edit("-0.0-twin-late+1", at(n - 3, 1) * np.where(v == 0, -1.0, 1.0))]
+    sw = v.copy()
+    sw[n - 1], sw[n - 2] = v[n - 2], v[n - 1]
+    edited.append(edit("swap-last-two", sw))                          # same multiset / sum, other order
+    # 2-d: C order against Fortran order (equal; unhashable), both differ from the 1-d base
+    r, c_ = (n // 8, 8) if n % 8 == 0 else (1, n)
+    c2 = [mk(type(c), c, values={k: a.reshape(r, c_).copy() for k, a in c.values.items()}) for c in cs]
+    f2 = [mk(type(c), c, values={k: np.asfortranarray(a.reshape(r, c_)) for k, a in c.values.items()}) for c in cs]
+    i2c, i2f = fam.add(Triangle(c2), "2d:C-order"), fam.add(Triangle(f2), "2d:Fortran-order")
+    g2 = list(f2)
+    w2 = np.asfortranarray(f2[p].values["reported_loss"].copy())
+    w2[r - 1, c_ - 1] += 1
+    g2[p] = mk(type(g2[p]), g2[p], values={**g2[p].values, "reported_loss": w2})
+    i2e = fam.add(Triangle(g2), "2d:Fortran-order-last+1")
+    pairs = star(copies, others, rng, cross=6)
+    pairs += [(a, b) for a in (i2c, i2f, i2e) for b in (i2c, i2f, i2e)] + [(base, i2c), (i2f, base)]
+    base_ix = fam.tris[base]
+    mems = [(ci, i) for i in others + copies[1:] for ci in base_ix]
+    mems += [(fam.cell_ix(x), i) for x in edited for i in (base, copies[1], copies[2])]
+    ci = fam.cell_ix(last)
+    cell_pairs = [(ci, ci)]
+    for x in edited + [fam.objs[i].cells[p] for i in copies[1:]]:
+        cj = fam.cell_ix(x)
+        cell_pairs += [(ci, cj), (cj, ci)]
+    return lesson_eval(ctx, fam, "size-array", pairs, mems, cell_pairs,
+                       note=[f"n={n}" if n in (256, 1000) else "n=other", f"kind={type(cs[0]).__name__}"])
+
+
+def lesson_size_cells(ctx, rng, idx, n_slices, kind=None):
+    """lesson 1 — triangles of >= 300 cells (one slice, or several): every cell must be found (`in`, `<=`), edits and
+    drops at positions 0 / 255 / 256 / n-2 / n-1"""
+    kind = kind or rng.choice(["C", "U", "I"])
+    vkind = rng.choice(["int", "float", "iarr"])
+    metas = sorted(gen.rand_metas(rng, n_slices))
+    per = {1: (20, 16), 2: (13, 12), 3: (11, 10), 4: (9, 9)}.get(len(metas), (9, 9))
+    cells = []
+    for m in metas:
+        cells += grid_cells(rng, m, per[0], per[1], kind, vkind, res=rng.choice([1, 3]), y0=rng.randrange(1990, 2010))
+    rng.shuffle(cells)
+    t = Triangle(cells)
+    cs = list(t.cells)
+    n = len(cs)
+    typed = typed_of(cs)
+    fam = Family(f"lesson-size-cells#{idx}")
+    base = fam.add(t, "base")
+    perm = list(cs)
+    rng.shuffle(perm)
+    copies = [base, fam.add(Triangle(tuple(perm)), "copy:permuted-tuple"),
+              fam.add(Triangle([retype_cell(c, 0) for c in perm]), "copy:retyped0")]
+    others, edited = [], []
+
+    def add(tag, tri):
+        others.append(fam.add(tri, tag))
+        ctx.count("lesson/size-cells/" + tag.split("@")[0])
+        return others[-1]
+
+    i_drop_last = add(f"drop@{n - 1}", Triangle(cs[:-1]))
+    add("drop@0", Triangle(cs[1:]))
+    i_drop_256 = add("drop@256", Triangle(cs[:256] + cs[257:]))
+    for p_, how in ((0, "value"), (255, "ev"), (256, "value"), (n - 2, "meta"), (n - 1, "value"), (n - 1, "ev")):
+        c = cs[p_]
+        if how == "value":
+            x = bump(c)
+        elif how == "ev":
+            x = mk(type(c), c, evaluation_date=c.evaluation_date + ONE)
+        else:
+            kw = gen.vary(rng, dict(c.metadata.__dict__), rng.choice(["loss_details", "per_occurrence_limit", "details"]), typed)
+            if kw is None:
+                continue
+            x = mk(type(c), c, metadata=Metadata(**kw))
+        edited.append((p_, x, add(f"edit-{how}@{p_}", with_cell(cs, p_, x))))
+    add("ext:duplicate@256", Triangle(cs + [mk(type(cs[256]), cs[256])]))
+    pairs = star(copies, others)
+    base_ix = fam.tris[base]
+    mems = [(ci, base) for ci in base_ix] + [(ci, copies[2]) for ci in base_ix]          # every cell is found
+    mems += [(ci, i_drop_256) for ci in base_ix[200:]] + [(ci, i_drop_last) for ci in base_ix[-40:]]
+    cell_pairs = []
+    for p_, x, ti in edited:
+        mems += [(fam.cell_ix(x), base), (base_ix[p_], ti)]
+        cell_pairs += [(base_ix[p_], fam.cell_ix(x)), (fam.cell_ix(x), base_ix[p_])]
+    return lesson_eval(ctx, fam, "size-cells", pairs, mems, cell_pairs, p_union=0.1, p_twice=0.08,
+                       note=[f"slices={len(metas)}", f"cells>={n // 100 * 100}", f"kind={type(cs[0]).__name__}"])
+
+
+def lesson_overlap(ctx, rng, idx, kind=None):
+    """lesson 2 — non-disjoint periods: rows of one slice sharing period_start (month stub / quarter / half-year / year)
+    or period_end, evaluated at the same dates, the stub and the half-year carrying IDENTICAL values; duplicate
+    coordinates with different values (and, incremental, with different previous dates)"""
+    kind = kind or rng.choice(["C", "U", "I"])
+    vkind = rng.choice(["int", "float", "iarr"])
+    metas = sorted(gen.rand_metas(rng, rng.choice([1, 2])))
+    y = rng.randrange(1995, 2030)
+    ps = datetime.date(y, 1, 1)
+    same_start = [(ps, gen.month_end(y, k)) for k in rng.sample([1, 3, 6, 12], 3)]
+    pe = datetime.date(y + 1, 12, 31)
+    same_end = [(datetime.date(y + 1, k, 1), pe) for k in rng.sample([12, 10, 7, 1], 2)]
+    evals = [datetime.date(y + 1, 12, 31), datetime.date(y + 2, 6, 30), datetime.date(y + 2, 12, 31)][:rng.choice([2, 3])]
+    cls = {"C": Cell, "U": CumulativeCell, "I": IncrementalCell}[kind]
+    cells = []
+    for m in metas:
+        shared = {}
+        for gi, group in enumerate((sorted(same_start), sorted(same_end))):
+            for ri, (a, b) in enumerate(group):
+                prev = a - ONE
+                for ev in evals:
+                    if ri < 2:      # the first two rows of a group carry identical values
+                        vals = shared.setdefault((gi, ev), {f: gen.rand_value(rng, vkind, 3) for f in ("paid_loss", "reported_loss")})
+                        vals = {k: (v.copy() if isinstance(v, np.ndarray) else v) for k, v in vals.items()}
+                    else:
+                        vals = {f: gen.rand_value(rng, vkind, 3) for f in ("paid_loss", "reported_loss")}
+                    cells.append(cls(a, b, prev, ev, vals, m) if kind == "I" else cls(a, b, ev, vals, m))
+                    prev = ev
+    t = Triangle(cells)
+    cs = list(t.cells)
+    fam = Family(f"lesson-overlap#{idx}")
+    base = fam.add(t, "base")
+    perm = list(cs)
+    rng.shuffle(perm)
+    copies = [base, fam.add(Triangle(perm), "copy:permuted"), fam.add(Triangle([retype_cell(c, 1) for c in perm]), "copy:retyped1")]
+    others, special = [], []
+    by_key = {}
+    for i, c in enumerate(cs):
+        by_key.setdefault((c.metadata, c.period_start, c.evaluation_date), []).append(i)
+    twins = [v for v in by_key.values() if len(v) >= 2]                # same slice, start and evaluation date, other end
+    by_end = {}
+    for i, c in enumerate(cs):
+        by_end.setdefault((c.metadata, c.period_end, c.evaluation_date), []).append(i)
+    twins_end = [v for v in by_end.values() if len(v) >= 2]
+    for tag, groups in (("same-start", twins), ("same-end", twins_end)):
+        for g in rng.sample(groups, min(2, len(groups))):
+            i, j = g[0], g[1]                                          # identical values, other period end / start
+            ci, cj = cs[i], cs[j]
+            others.append(fam.add(Triangle(cs[:i] + cs[i + 1:]), f"{tag}:drop-stub"))
+            special.append((fam.cell_ix(ci), others[-1]))              # must NOT be found: its twin is there
+            moved = mk(type(ci), ci, period_start=cj.period_start, period_end=cj.period_end,
+                       **({"prev_evaluation_date": cj.prev_evaluation_date} if kind == "I" else {}))
+            others.append(fam.add(with_cell(cs, i, moved), f"{tag}:stub-moved-onto-twin"))
+            k = g[-1]
+            if k != i:                                                 # exchange the values of two rows of the group
+                a, b = mk(type(ci), ci, values=dict(cs[k].values)), mk(type(cs[k]), cs[k], values=dict(ci.values))
+                tri = list(cs)
+                tri[i], tri[k] = a, b
+                others.append(fam.add(Triangle(tri), f"{tag}:values-exchanged"))
+                special += [(fam.cell_ix(a), base), (fam.cell_ix(b), base)]
+            ctx.count(f"lesson/overlap/{tag}")
+    # duplicate coordinates, different values
+    c = rng.choice(cs)
+    x1, x2 = bump(c), bump(c, by=2)
+    dup_a, dup_b = fam.add(Triangle(cs + [x1]), "dup-coordinate:appended"), fam.add(Triangle([x1] + cs), "dup-coordinate:prepended")
+    others += [dup_a, dup_b]
+    ic, i1, i2 = fam.cell_ix(c), fam.cell_ix(x1), fam.cell_ix(x2)
+    special += [(ic, dup_a), (i1, dup_a), (i2, dup_a), (ic, dup_b), (i1, dup_b), (i2, dup_b), (i1, base)]
+    if kind == "I":
+        xp = mk(type(c), c, prev_evaluation_date=c.prev_evaluation_date - ONE)
+        dup_p = fam.add(Triangle(cs + [xp]), "dup-coordinate:other-prev")
+        others.append(dup_p)
+        special += [(fam.cell_ix(xp), dup_p), (ic, dup_p), (fam.cell_ix(xp), base)]
+    pairs = star(copies, others, rng, cross=8) + [(dup_a, dup_b), (dup_b, dup_a)]
+    base_ix = fam.tris[base]
+    mems = special + [(ci, i) for i in others + copies[1:] for ci in base_ix]
+    cell_pairs = []
+    for g in twins + twins_end:
+        for a in g:
+            for b in g:
+                cell_pairs.append((base_ix[a], base_ix[b]))
+    cell_pairs += [(ic, i1), (i1, ic), (i1, i2)]
+    return lesson_eval(ctx, fam, "overlap", pairs, mems, cell_pairs, note=[f"kind={type(cs[0]).__name__}"])
+
+
+def lesson_offgrid(ctx, rng, idx, kind=None):
+    """lesson 3 — dates off the month grid: periods 16th -> 15th, evaluation dates on the 15th AND at the end of the
+    same month; single edits that move one date WITHIN its calendar month"""
+    kind = kind or rng.choice(["C", "U", "I"])
+    vkind = rng.choice(["int", "float", "farr"])
+    metas = sorted(gen.rand_metas(rng, rng.choice([1, 2])))
+    y, m0 = rng.randrange(1995, 2030), rng.randrange(1, 10)
+    cls = {"C": Cell, "U": CumulativeCell, "I": IncrementalCell}[kind]
+    cells = []
+    for m in metas:
+        for i in range(3):
+            ps = datetime.date(y, m0 + i, 16)
+            pe = gen.add_months_int(ps, 1).replace(day=15)
+            prev = ps - ONE
+            for k in range(1, 3):
+                mid = gen.add_months_int(pe, k).replace(day=15)
+                for ev in (mid, gen.month_end(mid.year, mid.month)):    # two cells in one month id
+                    vals = {f: gen.rand_value(rng, vkind, 3) for f in ("paid_loss", "reported_loss")}
+                    cells.append(cls(ps, pe, prev, ev, vals, m) if kind == "I" else cls(ps, pe, ev, vals, m))
+                    prev = ev
+    t = Triangle(cells)
+    cs = list(t.cells)
+    fam = Family(f"lesson-offgrid#{idx}")
+    base = fam.add(t, "base")
+    perm = list(cs)
+    rng.shuffle(perm)
+    copies = [base, fam.add(Triangle(perm), "copy:permuted"), fam.add(Triangle([retype_cell(c, 2) for c in perm]), "copy:retyped2")]
+    others, edited = [], []
+    for p_ in sorted({0, len(cs) - 1, rng.randrange(len(cs)), rng.randrange(len(cs))}):
+        c = cs[p_]
+        moves = [("period_start", dict(period_start=c.period_start.replace(day=rng.choice([1, 10, 17, 28])))),
+                 ("period_end", dict(period_end=c.period_end.replace(day=rng.choice([14, 16, 28])))),
+                 ("evaluation_date", dict(evaluation_date=c.evaluation_date.replace(
+                     day=rng.choice([d for d in (14, 16, 20, 27) if d != c.evaluation_date.day])))),
+                 ("evaluation_date+1y", dict(evaluation_date=c.evaluation_date.replace(year=c.evaluation_date.year + 1, day=15)))]
+        if kind == "I":
+            pv = c.prev_evaluation_date
+            moves.append(("prev_evaluation_date", dict(prev_evaluation_date=pv.replace(day=pv.day - 1 if pv.day > 1 else 2))))
+        for tag, kw in moves:
+            st, x = call(mk, type(c), c, **kw)
+            if st != "ok":
+                continue
+            st, tv = call(with_cell, cs, p_, x)
+            if st != "ok":
+                continue
+            others.append(fam.add(tv, f"edit@{p_}:same-month:{tag}"))
+            edited.append((p_, fam.cell_ix(x)))
+            ctx.count(f"lesson/offgrid/same-month:{tag}")
+    # the 15th and the month end of one month are different cells
+    by = {}
+    for i, c in enumerate(cs):
+        by.setdefault((c.metadata, c.period, c.evaluation_date.year, c.evaluation_date.month), []).append(i)
+    special = []
+    for g in rng.sample([v for v in by.values() if len(v) == 2], 2):
+        i, j = g
+        others.append(fam.add(Triangle(cs[:i] + cs[i + 1:]), "drop:eval-15th (month end stays)"))
+        special.append((fam.tris[base][i], others[-1]))
+        x = mk(type(cs[i]), cs[i], values=dict(cs[j].values))          # the 15th with the month end's values
+        special.append((fam.cell_ix(x), base))
+    pairs = star(copies, others, rng, cross=8)
+    base_ix = fam.tris[base]
+    mems = special + [(ci, i) for i in rng.sample(others, min(10, len(others))) + copies[1:] for ci in base_ix]
+    mems += [(cj, base) for _, cj in edited]
+    cell_pairs = []
+    for p_, cj in edited:
+        cell_pairs += [(base_ix[p_], cj), (cj, base_ix[p_])]
+    return lesson_eval(ctx, fam, "offgrid", pairs, mems, cell_pairs, note=[f"kind={type(cs[0]).__name__}"])
+
+
+def late_metas(rng, n, flavour):
+    """n metadata in sorted order. `only-loss_details` / `only-limit` / `only-details`: they differ ONLY in that late
+    attribute (everything before it agrees); `random`: unrelated"""
+    if flavour == "random":
+        return sorted(gen.rand_metas(rng, n, single_attr=False))
+    typed = {}
+    kw = gen.base_meta_kwargs(rng, typed)
+    out = []
+    for i in range(n):
+        k2 = dict(kw)
+        if flavour == "only-loss_details":
+            k2["loss_details"] = {**kw["loss_details"], "peril": ["a", "b", "c", "d", "e"][i]}
+        elif flavour == "only-details":
+            k2["details"] = {**kw["details"], "zone": i}           # 0 in the first slice
+        else:
+            k2["per_occurrence_limit"] = [0, 250000, 500000.0, 1e6, None][i]   # None sorts last
+        out.append(Metadata(**k2))
+    return sorted(out)
+
+
+def lesson_late(ctx, rng, idx, flavour, kind=None):
+    """lesson 4 — 3-5 slices; the single edit sits in the LAST slice / in a late attribute. With the `only-*` flavours
+    every slice has the same coordinates AND the same values: the slices agree on everything but one late attribute"""
+    kind = kind or rng.choice(["C", "U", "I"])
+    vkind = rng.choice(["int", "float", "iarr", "farr"])
+    metas = late_metas(rng, rng.choice([3, 4, 5]), flavour)
+    typed = {}
+    for m in metas:
+        for d in (m.details, m.loss_details):
+            for k, v in d.items():
+                typed.setdefault(k, kind_of(v))
+    proto = grid_cells(rng, metas[0], 2, rng.choice([2, 3]), kind, vkind, res=rng.choice([3, 12]))
+    cells = []
+    for m in metas:
+        if flavour == "random" and rng.random() < 0.5:
+            cells += grid_cells(rng, m, 2, 2, kind, vkind, res=12)
+        else:
+            cells += [mk(type(c), c, metadata=m) for c in proto]
+    rng.shuffle(cells)
+    t = Triangle(cells)
+    cs = list(t.cells)
+    n = len(cs)
+    last_slice = [i for i, c in enumerate(cs) if c.metadata == cs[-1].metadata]
+    fam = Family(f"lesson-late#{idx}")
+    base = fam.add(t, "base")
+    perm = list(cs)
+    rng.shuffle(perm)
+    copies = [base, fam.add(Triangle(perm), "copy:permuted"),
+              fam.add(Triangle([retype_cell(c, 0) for c in perm]), "copy:retyped0")]
+    others, edited = [], []
+
+    def add(tag, p_, x):
+        st, tv = call(with_cell, cs, p_, x)
+        if st == "ok":
+            others.append(fam.add(tv, f"edit@{p_}/{n}:{tag}"))
+            edited.append((p_, fam.cell_ix(x)))
+            ctx.count(f"lesson/late/edit:{tag}")
+
+    for p_ in sorted({n - 1, last_slice[0], rng.choice(last_slice), n - 2}):
+        c = cs[p_]
+        add("value+1", p_, bump(c))
+        add("evaluation_date", p_, mk(type(c), c, evaluation_date=c.evaluation_date + ONE))
+        for attr in ("loss_details", "per_occurrence_limit", "details"):
+            kw = gen.vary(rng, dict(c.metadata.__dict__), attr, typed)
+            if kw is not None:
+                add(f"meta:{attr}", p_, mk(type(c), c, metadata=Metadata(**kw)))
+        if len(metas) >= 2:                   # the cell slips into the slice before: duplicate there, missing here
+            add("meta:=previous-slice", p_, mk(type(c), c, metadata=metas[-2]))
+    no_last = fam.add(Triangle([c for c in cs if c.metadata != cs[-1].metadata]), "drop:last-slice")
+    only_last = fam.add(Triangle([cs[i] for i in last_slice]), "only:last-slice")
+    others += [no_last, only_last]
+    pairs = star(copies, others, rng, cross=10) + [(no_last, only_last), (only_last, no_last)]
+    base_ix = fam.tris[base]
+    mems = [(base_ix[i], no_last) for i in last_slice] + [(ci, only_last) for ci in base_ix]
+    mems += [(cj, base) for _, cj in edited] + [(ci, i) for i in rng.sample(others, min(8, len(others))) for ci in base_ix]
+    cell_pairs = []
+    for p_, cj in edited:
+        cell_pairs += [(base_ix[p_], cj), (cj, base_ix[p_])]
+    if flavour != "random":                    # same coordinate and values, other slice: differ in the late attribute only
+        first = {}
+        for i, c in enumerate(cs):
+            first.setdefault((c.period, c.evaluation_date), []).append(i)
+        for g in list(first.values())[:3]:
+            cell_pairs += [(base_ix[a], base_ix[b]) for a in g for b in g]
+    return lesson_eval(ctx, fam, "late", pairs, mems, cell_pairs,
+                       note=[flavour, f"slices={len(metas)}", f"kind={type(cs[0]).__name__}"])
+
+
+def lesson_twin(ctx, rng, idx, kind=None):
+    """lesson 6 — triangle A, then B with the SAME coordinates, metadata, classes, field names and sizes but other
+    values (rescaled), compared / hashed / searched one after the other in one process; B2 differs from A in the last
+    cell only"""
+    kind = kind or rng.choice(["C", "U", "I"])
+    vkind = rng.choice(["int", "float", "iarr", "farr"])
+    cells = base_cells(rng, 12, kind=kind, vkind=vkind)
+    a = Triangle(cells)
+    cs = list(a.cells)
+
+    def rescale(v):
+        return None if v is None else v * 3 + 1
+
+    b_cells = [mk(type(c), c, values={k: rescale(v) for k, v in c.values.items()}) for c in cs]
+    fam = Family(f"lesson-twin#{idx}")
+    ia, ia2 = fam.add(a, "A"), fam.add(fresh_copy(a), "A:fresh-copy")
+    ib, ib2 = fam.add(Triangle(b_cells), "B:rescaled-twin"), fam.add(Triangle(list(reversed([mk(type(c), c) for c in b_cells]))), "B:fresh-copy")
+    ic = fam.add(Triangle(cs[:-1] + [b_cells[-1]]), "A-but-last-cell-of-B")
+    id_ = fam.add(Triangle([b_cells[0]] + cs[1:]), "A-but-first-cell-of-B")
+    pairs = [(ia, ia2), (ia, ib), (ib, ib2), (ib, ia), (ia2, ib2), (ia, ia), (ib, ib), (ia, ic), (ic, ia), (ib, ic),
+             (ia, id_), (id_, ib), (ic, id_), (ia2, ia), (ib2, ib)]
+    a_ix, b_ix = fam.tris[ia], fam.tris[ib]
+    mems = [(ci, ia) for ci in a_ix] + [(ci, ib) for ci in a_ix] + [(ci, ib) for ci in b_ix] + [(ci, ia) for ci in b_ix]
+    mems += [(ci, ic) for ci in a_ix + b_ix]
+    cell_pairs = []
+    for x, y in zip(a_ix, b_ix):
+        cell_pairs += [(x, x), (x, y), (y, x), (y, y)]
+    return lesson_eval(ctx, fam, "twin", pairs, mems, cell_pairs, p_union=0.5, p_twice=0.5,
+                       note=[f"kind={type(cs[0]).__name__}", f"vkind={vkind}"])
+
+
+def lesson_derived(ctx, rng, idx, kind=None):
+    """lesson 7 — every cached accessor (and the hash) of a parent triangle is read, then triangles are DERIVED from it
+    (filter / clip / slicing / index by coordinates / select / slices / right_edge / derive_metadata / `&` / `-`);
+    each derived triangle is compared with a FRESH triangle of the same content (must be ==, hash alike) and with
+    the parent"""
+    kind = kind or rng.choice(["C", "U", "I"])
+    vkind = rng.choice(["int", "float", "iarr", "farr"])
+    for _ in range(20):
+        cells = gen.rand_cells(rng, n_slices=rng.choice([2, 3]), kind=kind, vkind=vkind, layout="regular",
+                               fields=["earned_premium", "paid_loss", "reported_loss"], max_cells=14)
+        if len(cells) >= 5:
+            break
+    parent = Triangle(cells)
+    warm(parent)
+    call(lambda: parent == fresh_copy(parent))
+    cs = list(parent.cells)
+    evs = sorted({c.evaluation_date for c in cs})
+    pss = sorted({c.period_start for c in cs})
+    keep = set(rng.sample(range(len(cs)), max(1, len(cs) // 2)))
+    kept_ids = {id(cs[i]) for i in keep}
+    part = Triangle([cs[i] for i in sorted(keep)])
+    derivations = [
+        ("filter(half)", lambda: parent.filter(lambda c: id(c) in kept_ids)),
+        ("filter(all)", lambda: parent.filter(lambda c: True)),
+        ("filter(last-slice)", lambda: parent.filter(lambda c: c.metadata == cs[-1].metadata)),
+        ("clip(max_eval)", lambda: parent.clip(max_eval=evs[len(evs) // 2])),
+        ("clip(min_period)", lambda: parent.clip(min_period=pss[len(pss) // 2])),
+        ("t[1:]", lambda: parent[1:]),
+        ("t[:-1]", lambda: parent[:-1]),
+        ("t[ps:, :, meta]", lambda: parent[pss[0]:, :, cs[-1].metadata]),
+        ("select(2 fields)", lambda: parent.select(["paid_loss", "reported_loss"])),
+        ("select(all fields)", lambda: parent.select(["earned_premium", "paid_loss", "reported_loss"])),
+        ("slices[last]", lambda: parent.slices[cs[-1].metadata]),
+        ("right_edge", lambda: parent.right_edge),
+        ("derive_metadata(currency)", lambda: parent.derive_metadata(currency="XYZ")),
+        ("t & part", lambda: parent & part),
+        ("t - part", lambda: parent - part),
+    ]
+    fam = Family(f"lesson-derived#{idx}")
+    ip = fam.add(parent, "parent(warm)")
+    ifp = fam.add(fresh_copy(parent), "parent:fresh-copy")
+    pairs = [(ip, ifp), (ifp, ip)]
+    mems = []
+    for tag, fn in derivations:
+        st, d = call(fn)
+        if st != "ok" or not isinstance(d, Triangle):
+            ctx.count(f"lesson/derived/{tag}: not derivable ({d if st != 'ok' else type(d).__name__})")
+            continue
+        idd = fam.add(d, "derived:" + tag)
+        ifr = fam.add(fresh_copy(d), "fresh:" + tag)
+        pairs += [(idd, ifr), (ifr, idd), (idd, ip), (ip, idd), (idd, idd)]
+        mems += [(ci, idd) for ci in fam.tris[ip]] + [(ci, ip) for ci in fam.tris[idd][:6]]
+        ctx.count(f"lesson/derived/{tag}")
+        if len(d) == 0:
+            ctx.count("lesson/derived/empty-result")
+    return lesson_eval(ctx, fam, "derived", pairs, mems, (), p_union=0.3, p_twice=0.4,
+                       note=[f"kind={type(cs[0]).__name__}"])
+
+
+FALSY_DETAIL = [0, 0.0, False, ""]
+
+
+def lesson_falsy_meta(ctx, rng, idx):
+    """lesson 8 (metadata) — every attribute falsy ('' / 0 / 0.0 / False) against None / absent, pairwise"""
+    base_kw = dict(risk_basis="", country="", currency="", reinsurance_basis="", loss_definition="",
+                   per_occurrence_limit=0, details={"a": 0, "b": "", "c": False, "d": 0.0},
+                   loss_details={"a": "", "z": 0})
+    metas = [Metadata(**base_kw), Metadata(**{**base_kw, "details": dict(reversed(list(base_kw["details"].items())))})]
+    for attr in ("country", "currency", "reinsurance_basis", "loss_definition", "per_occurrence_limit"):
+        metas.append(Metadata(**{**base_kw, attr: None}))
+    metas.append(Metadata(**{**base_kw, "risk_basis": "Accident"}))
+    for lim in (0.0, False, -0.0, 2.5):
+        metas.append(Metadata(**{**base_kw, "per_occurrence_limit": lim}))
+    for which in ("details", "loss_details"):
+        d = base_kw[which]
+        for k in d:
+            metas.append(Metadata(**{**base_kw, which: {**d, k: None}}))                        # falsy -> None
+            metas.append(Metadata(**{**base_kw, which: {kk: vv for kk, vv in d.items() if kk != k}}))   # absent
+            for f in FALSY_DETAIL:
+                if isinstance(f, str) != isinstance(d[k], str):
+                    continue        # hash("") == hash(0) in CPython: a legal collision the hash-key observable would flag
+                metas.append(Metadata(**{**base_kw, which: {**d, k: f}}))                       # another falsy value
+        metas.append(Metadata(**{**base_kw, which: {}}))
+        metas.append(Metadata(**{**base_kw, which: {k: None for k in d}}))
+    metas.append(Metadata())
+    metas.append(Metadata(details={"a": None}))
+    pairs = [(i, j) for i in range(len(metas)) for j in range(len(metas))]
+    fam = Family(f"lesson-falsy-meta#{idx}")
+    req, rec = evaluate(ctx, fam, [], sets=False, metas=metas, meta_pairs=pairs)
+    eq = {p: v for p, v in zip(pairs, rec["implMetaEq"])}
+    for (i, j), v in eq.items():
+        if v is not None and (len({metas[i], metas[j]}) == 1) != v:
+            ctx.fail("a set keyed by Metadata does not collapse exactly the equal ones",
+                     {"m1": w_meta(metas[i]), "m2": w_meta(metas[j])})
+            break
+    for p in pairs:
+        ctx.case(digest=hash(("falsy-meta", p)), nontrivial=p[0] != p[1])
+    ctx.count("lesson/falsy-meta")
+    ctx.count("lesson/falsy-meta/pairs", len(pairs))
+    return fam, req, rec
+
+
+def lesson_falsy_cells(ctx, rng, idx, kind=None):
+    """lesson 8 (triangles) — limit 0 / details 0, 0.0, False, '' in EVERY slice and values 0 / 0.0 / False / all-zero
+    arrays in every cell, against None / absent twins and against each other"""
+    kind = kind or rng.choice(["C", "U", "I"])
+    metas = sorted([Metadata(country="", per_occurrence_limit=0, details={"k": f, "s": ""}, loss_details={"x": False})
+                    for f in (0, 1, 2)][:rng.choice([2, 3])])
+    zero_vals = {"paid_loss": 0, "reported_loss": 0.0, "open_claims": False, "samples": np.zeros(3), "counts": np.zeros(2, dtype=np.int64)}
+    proto = grid_cells(rng, metas[0], 2, 2, kind, "int", res=12)
+    cells = [mk(type(c), c, metadata=m, values={k: (v.copy() if isinstance(v, np.ndarray) else v) for k, v in zero_vals.items()})
+             for m in metas for c in proto]
+    t = Triangle(cells)
+    cs = list(t.cells)
+    fam = Family(f"lesson-falsy-cells#{idx}")
+    base = fam.add(t, "base")
+    copies, others, edited = [base], [], []
+
+    def remap_all(tag, f, equal):
+        tri = Triangle([f(c) for c in cs])
+        (copies if equal else others).append(fam.add(tri, tag))
+
+    remap_all("copy:0<->0.0<->False", lambda c: mk(type(c), c, values={
+        "open_claims": 0.0, "samples": np.zeros(3, dtype=np.int64), "counts": -np.zeros(2), "reported_loss": False,
+        "paid_loss": -0.0}), True)
+    remap_all("copy:metadata-falsy-retyped", lambda c: mk(type(c), c, metadata=Metadata(
+        country="", per_occurrence_limit=rng.choice([0.0, False]), details={"s": "", "k": float(c.metadata.details["k"])},
+        loss_details={"x": rng.choice([0, 0.0])})), True)
+    p = rng.randrange(len(cs))
+    c = cs[p]
+
+    loose = []
+
+    def edit(tag, x):
+        st, tv = call(with_cell, cs, p, x)
+        if st == "ok":
+            others.append(fam.add(tv, f"edit@{p}:{tag}"))
+            edited.append(fam.cell_ix(x))
+        else:
+            # None / '' / 0 under one detail key are not orderable (Metadata.__lt__): the edited cell cannot sit in one
+            # triangle with the others (C01's business) — one-cell triangles and the cells themselves are compared
+            # in a second family, without `|` / `^` (they sort)
+            loose.append((tag, x))
+            ctx.count("lesson/falsy-cells/not-orderable -> one-cell triangles")
+        ctx.count(f"lesson/falsy-cells/{tag}")
+
+    for k in zero_vals:
+        edit(f"value:{k}->None", mk(type(c), c, values={**c.values, k: None}))
+        edit(f"value:{k}-absent", mk(type(c), c, values={kk: vv for kk, vv in c.values.items() if kk != k}))
+    edit("value:zeros->0", mk(type(c), c, values={**c.values, "samples": 0}))
+    edit("value:zeros(3)->zeros(2)", mk(type(c), c, values={**c.values, "samples": np.zeros(2)}))
+    edit("value:zeros->empty", mk(type(c), c, values={**c.values, "samples": np.zeros(0)}))
+    mkw = dict(c.metadata.__dict__)
+    for tag, kw in (("limit:0->None", {"per_occurrence_limit": None}), ("country:''->None", {"country": None}),
+                    ("details:''->None", {"details": {**mkw["details"], "s": None}}),
+                    ("details:''-absent", {"details": {"k": mkw["details"]["k"]}}),
+                    ("details:k->None", {"details": {**mkw["details"], "k": None}}),
+                    ("loss_details:False->None", {"loss_details": {"x": None}}),
+                    ("loss_details:False->'x'", {"loss_details": {"x": "x"}}),
+                    ("loss_details:absent", {"loss_details": {}})):
+        edit("meta:" + tag, mk(type(c), c, metadata=Metadata(**{**mkw, **kw})))
+    # the same falsy -> None change in EVERY cell
+    remap_all("all:limit->None", lambda c: mk(type(c), c, metadata=Metadata(**{**c.metadata.__dict__, "per_occurrence_limit": None})), False)
+    remap_all("all:values->None", lambda c: mk(type(c), c, values={k: None for k in c.values}), False)
+    pairs = star(copies, others, rng, cross=10)
+    base_ix = fam.tris[base]
+    mems = [(cj, base) for cj in edited] + [(ci, i) for i in others for ci in base_ix[:4]] + [(ci, i) for i in copies for ci in base_ix]
+    cell_pairs = []
+    for cj in edited + [fam.tris[i][p] for i in copies[1:]]:
+        cell_pairs += [(base_ix[p], cj), (cj, base_ix[p])]
+    yield lesson_eval(ctx, fam, "falsy-cells", pairs, mems, cell_pairs, note=[f"kind={type(cs[0]).__name__}"])
+    if loose:
+        fam1 = Family(f"lesson-falsy-one-cell#{idx}")
+        one = fam1.add(Triangle([c]), "one-cell")
+        full = fam1.add(Triangle(cs), "base")
+        ic = fam1.cell_ix(c)
+        pairs1, mems1, cps1 = [(one, one)], [], []
+        for tag, x in loose:
+            i1 = fam1.add(Triangle([x]), f"one-cell:{tag}")
+            pairs1 += [(one, i1), (i1, one), (i1, full), (full, i1), (i1, i1)]
+            cx = fam1.cell_ix(x)
+            mems1 += [(cx, one), (cx, full), (ic, i1)]
+            cps1 += [(ic, cx), (cx, ic)]
+        yield lesson_eval(ctx, fam1, "falsy-one-cell", pairs1, mems1, cps1, p_union=0.0, p_twice=0.3)
+
+
+def lesson_families(ctx, rng, reps):
+    """the fixed quota (reps = 1 quick). Lesson 5 (all-of-them options) does not apply: `==`, `hash`, `in`, `<=`, `&`,
+    `-` take no options."""
+    ks = ["C", "U", "I"]
+    rng.shuffle(ks)
+    for r in range(reps):
+        k = lambda i: ks[(i + r) % 3]       # every lesson sees the three cell classes over its cases
+        for i, n in enumerate((256, 1000, rng.choice([255, 257, 512] if not ctx.thorough else [255, 257, 4096]))):
+            yield lesson_size_arrays(ctx, rng, f"{r}.{n}", n, kind=k(i))
+        for i, ns in enumerate((1, rng.choice([3, 4]))):
+            yield lesson_size_cells(ctx, rng, f"{r}.{ns}", ns, kind=k(i + 1))
+        for i in range(3):
+            yield lesson_overlap(ctx, rng, f"{r}.{i}", kind=k(i))
+        for i in range(3):
+            yield lesson_offgrid(ctx, rng, f"{r}.{i}", kind=k(i))
+        for i, fl in enumerate(["only-loss_details", "only-limit", "only-details", "random"]):
+            yield lesson_late(ctx, rng, f"{r}.{i}", fl, kind=k(i))
+        for i in range(4):
+            yield lesson_twin(ctx, rng, f"{r}.{i}", kind=k(i))
+        for i in range(4):
+            yield lesson_derived(ctx, rng, f"{r}.{i}", kind=k(i))
+        yield lesson_falsy_meta(ctx, rng, f"{r}")
+        for i in range(3):
+            yield from lesson_falsy_cells(ctx, rng, f"{r}.{i}", kind=k(i))
+
+
 def correspondence(ctx):
     rng = ctx.rng
     drv = common.Driver("drv_c02")
@@ -908,6 +1615,11 @@ def correspondence(ctx):
         work.append(metadata_family(ctx, rng, i))
     for i in range(n_cross):
         work.append(cross_family(ctx, rng, i))
+    # the eight generator lessons of seeded batch 4: a fixed quota of each input kind in EVERY run
+    if not os.environ.get("VERIF_SKIP_LESSONS"):
+        for w in lesson_families(ctx, rng, 4 if ctx.thorough else 1):
+            work.append(w)
+            flush()
     flush(force=True)
     ctx.notes.append("NaN-free data only (generator); 0-d arrays only in the `copy:0-d-arrays` variants, where "
                      "hash is expected to raise; arrays with >= 2 dimensions only in the `reshape(n,1)` edits")
@@ -927,7 +1639,15 @@ if __name__ == "__main__":
              "variant in both directions, variants against each other; `hash`, `<=`, `isdisjoint`, `&`, `-` on every pair; "
              "`in` for base/edited cells; cell-level `==`/`hash`/set/dict; all ordered pairs (and, through the matrix, all "
              "triples) of the 2^k sub-triangles of k-cell universes (k=4 quick, 6 thorough) holding equal-but-distinct "
-             "and single-edit cells, in cumulative and incremental basis; Metadata pairs. distinct = distinct "
+             "and single-edit cells, in cumulative and incremental basis; Metadata pairs; plus a fixed quota of LESSON families per run "
+             "(histogram lesson/*): sample arrays of 256/1000/255|257|512 elements with int64 / -0.0 / strided / Fortran-order twins "
+             "and edits at late array positions; triangles of >= 300 cells (1 and 3-4 slices) with every cell searched and edits / "
+             "drops at positions 0, 255, 256, n-2, n-1; non-disjoint periods (same start or same end, identical values) and duplicate "
+             "coordinates with other values / previous dates; dates off the month grid with same-month moves; 3-5 slices that differ "
+             "only in loss_details / limit / details with the edit in the last slice; twin triangles (same coordinates, other values); "
+             "triangles derived (filter, clip, slicing, select, slices, right_edge, derive_metadata, &, -) from a parent whose cached "
+             "accessors and hash were read, each against a fresh copy; falsy ('' / 0 / 0.0 / False / all-zero arrays) against None / absent "
+             "in metadata and values. distinct = distinct "
              "(family dump, a, b); non-trivial = both triangles non-empty and not the same object",
         assumptions=["NaN-free values, limits and details (np.array_equal and float == are not reflexive on NaN)",
                      "field names within a cell and detail keys within a dict are distinct (Python dicts)",
